@@ -25,7 +25,7 @@ Record Sim (keep : bool) (g : ledger) (s : st) : Prop := {
   s_cbound : forall c n, lookup c (g_codes g) = Some n -> c <= ncode s;
   s_ubound : forall c, In c (g_used g) -> c <= ncode s;
   s_rts : forall n t, find_rt s n = Some t ->
-            exists t', g_rt g n = Some t' /\ rel t t' /\ (keep = false -> nat_in n (g_rot g) = false);
+            exists t', g_rt g n = Some t' /\ rel t t' /\ nat_in n (g_rot g) = false;
   s_rbound : forall n t', g_rt g n = Some t' -> n <= next s;
   s_rotbound : forall n, In n (g_rot g) -> n <= next s;
   s_noref : g_norefresh g = norefresh s
@@ -81,7 +81,7 @@ Proof.
   intros [Scodes Sreqs Scb Sub Srts Srb Srot Snr] Hdone Ht.
   destruct Ht as [o x Hx Hns | pl0 cr0 n0 sc0 t0 Hrt0 Hn0 | cl uri scopes nonce chal ax | n sub stamp q Hq | n q Hq Hd
                  | pl f cr cd uri ver q c Hcr Hfc Hp Hu Hch Hpub | pl cr n scopes t c sc Hrt Hfc Hr Hfl Hp Hn
-                 | cl].
+                 | cl | nrev].
   - (* inert *)
     assert (Hl : ledger_step g o x = g).
     { destruct o, x as [[?|]|[|]| | | | | | | |]; try contradiction; reflexivity. }
@@ -163,7 +163,7 @@ Proof.
         destruct (Nat.eqb (S (next s)) m) eqn:E.
         -- injection Hf as <-. eexists. split; [reflexivity|]. split.
            ++ unfold rel. cbn. repeat split; reflexivity.
-           ++ intros _. apply nat_in_false. apply Nat.eqb_eq in E. intro Hin. apply Srot in Hin. lia.
+           ++ apply nat_in_false. apply Nat.eqb_eq in E. intro Hin. apply Srot in Hin. lia.
         -- apply Srts in Hf. exact Hf.
       * apply Srts in Hf. exact Hf.
     + intros m t'. unfold g_rt. destruct w; cbn [g_rts find r_id rt_of_resp].
@@ -193,46 +193,44 @@ Proof.
     destruct (f_keep cf) eqn:Hkeep.
     { (* the storage keeps the presented token *)
       split.
-      { cbn [c07_ok]. rewrite Hgt, Hkeep, Hfl, R1, Hp, R5, Hs2. cbn [orb negb andb t_scope t_jwt t_rt].
+      { cbn [c07_ok]. rewrite Hgt, Hnrot, Hkeep, Hfl, R1, Hp, R5, Hs2. cbn [orb negb andb t_scope t_jwt t_rt].
         unfold client_refresh. rewrite Hfc, Hr, Hnref, Hsceq, Hj, Htid, Nat.eqb_refl.
         cbn [negb andb t_sub t_at_sub t_aud t_azp t_auth].
         rewrite R2, R3, R4, openid_guard, !String.eqb_refl, strs_eqb_refl, Nat.eqb_refl. reflexivity. }
-      cbn [ledger_step]. unfold add_rt. cbn [t_rt].
+      cbn [ledger_step]. unfold add_rt. cbn [t_rt]. rewrite Htid, Nat.eqb_refl.
       constructor; cbn [g_reqs g_codes g_used g_rts g_rot g_norefresh reqs codes rtoks next ncode norefresh]; try assumption.
       + intros m t1 Hf. unfold find_rt in Hf. cbn [rtoks find r_id] in Hf.
-        unfold g_rt. cbn [g_rts find r_id rt_of_resp]. rewrite Htid in Hf |- *.
+        unfold g_rt. cbn [g_rts find r_id rt_of_resp]. rewrite ?Htid in Hf |- *.
         destruct (Nat.eqb n m) eqn:E.
-        * injection Hf as <-. eexists. split; [reflexivity|]. split; [|discriminate].
+        * injection Hf as <-. eexists. split; [reflexivity|]. split; [|apply Nat.eqb_eq in E; subst m; exact Hnrot].
           unfold rel. cbn. repeat split; reflexivity.
         * apply Nat.eqb_neq in E. rewrite find_filter_keep in Hf.
-          -- destruct (Srts _ _ Hf) as [t2 [Hg2 [Hrel _]]]. exists t2. split; [exact Hg2|]. split; [exact Hrel | discriminate].
+          -- destruct (Srts _ _ Hf) as [t2 [Hg2 [Hrel Hnr]]]. exists t2. split; [exact Hg2|]. split; [exact Hrel | exact Hnr].
           -- intros y Ey. apply Nat.eqb_eq in Ey. rewrite Ey. apply negb_true_iff, Nat.eqb_neq. auto.
-      + intros m t1. unfold g_rt. cbn [g_rts find r_id rt_of_resp]. rewrite Htid.
+      + intros m t1. unfold g_rt. cbn [g_rts find r_id rt_of_resp]. rewrite ?Htid.
         destruct (Nat.eqb n m) eqn:E; [apply Nat.eqb_eq in E; lia|].
         intro Hg. apply Srb in Hg. lia.
-      + intros m [<- | Hin]; [lia|]. apply Srot in Hin. lia. }
-    specialize (Hnrot eq_refl).
+      + intros m Hin. apply Srot in Hin. lia. }
+    assert (Hne : Nat.eqb (S (next s)) n = false) by (apply Nat.eqb_neq; lia).
     split.
     { cbn [c07_ok]. rewrite Hgt, Hkeep, Hnrot, Hfl, R1, Hp, R5, Hs2. cbn [orb negb andb t_scope t_jwt t_rt].
       unfold client_refresh. rewrite Hfc, Hr, Hnref, Hsceq. cbn [andb].
       rewrite Hj, Hfresh. cbn [andb].
-      assert (Hne : Nat.eqb (S (next s)) n = false) by (apply Nat.eqb_neq; lia).
       rewrite Hne. cbn [negb andb t_sub t_at_sub t_aud t_azp t_auth].
       rewrite R2, R3, R4, openid_guard, !String.eqb_refl, strs_eqb_refl, Nat.eqb_refl. reflexivity. }
-    cbn [ledger_step]. unfold add_rt. cbn [t_rt].
+    cbn [ledger_step]. unfold add_rt. cbn [t_rt]. rewrite Hne.
     constructor; cbn [g_reqs g_codes g_used g_rts g_rot g_norefresh reqs codes rtoks next ncode norefresh]; try assumption.
     + intros m t1 Hf. unfold find_rt in Hf. cbn [rtoks find r_id] in Hf.
       unfold g_rt. cbn [g_rts find r_id rt_of_resp].
       destruct (Nat.eqb (S (next s)) m) eqn:E.
       * injection Hf as <-. eexists. split; [reflexivity|]. split.
         -- unfold rel. cbn. repeat split; reflexivity.
-        -- intros _. apply Nat.eqb_eq in E. apply nat_in_false. intros [E' | Hin]; [lia|]. apply Srot in Hin. lia.
+        -- apply Nat.eqb_eq in E. apply nat_in_false. intros [E' | Hin]; [lia|]. apply Srot in Hin. lia.
       * destruct (Nat.eq_dec m n) as [-> | Hmn].
         -- rewrite find_filter_drop in Hf; [discriminate|].
            intros y Ey. apply Nat.eqb_eq in Ey. rewrite Ey, Htid, Nat.eqb_refl. reflexivity.
         -- rewrite find_filter_keep in Hf.
            ++ destruct (Srts _ _ Hf) as [t2 [Hg2 [Hrel Hnr]]]. exists t2. split; [exact Hg2|]. split; [exact Hrel|].
-              intros _. specialize (Hnr eq_refl).
               apply nat_in_false. intros [E' | Hin]; [congruence|]. apply nat_in_In in Hin. congruence.
            ++ intros y Ey. apply Nat.eqb_eq in Ey. rewrite Ey, Htid. apply negb_true_iff, Nat.eqb_neq. exact Hmn.
     + intros m t1. unfold g_rt. cbn [g_rts find r_id rt_of_resp].
@@ -243,6 +241,19 @@ Proof.
     split; [reflexivity|]. split; [reflexivity|]. cbn [ledger_step].
     constructor; cbn [g_reqs g_codes g_used g_rts g_rot g_norefresh reqs codes rtoks next ncode norefresh]; try assumption.
     now rewrite Snr.
+  - (* a refresh token revoked / expired *)
+    split; [reflexivity|]. split; [reflexivity|]. cbn [ledger_step].
+    constructor; cbn [g_reqs g_codes g_used g_rts g_rot g_norefresh reqs codes rtoks next ncode norefresh]; try assumption.
+    + intros m t Hf. unfold find_rt in Hf. cbn [rtoks] in Hf.
+      destruct (Nat.eq_dec m nrev) as [-> | Hne].
+      { rewrite find_filter_drop in Hf; [discriminate|]. intros y Ey. apply Nat.eqb_eq in Ey. now rewrite Ey, Nat.eqb_refl. }
+      rewrite find_filter_keep in Hf.
+      * destruct (Srts _ _ Hf) as [t2 [Hg2 [Hrel Hnr]]]. exists t2. split; [exact Hg2|]. split; [exact Hrel|].
+        destruct (g_rt g nrev); [|exact Hnr]. apply nat_in_false. intros [E | Hin]; [congruence|].
+        apply nat_in_In in Hin. congruence.
+      * intros y Ey. apply Nat.eqb_eq in Ey. rewrite Ey. apply negb_true_iff, Nat.eqb_neq. exact Hne.
+    + intros m Hin. destruct (g_rt g nrev) eqn:Hg; [|now apply Srot].
+      destruct Hin as [<- | Hin]; [eapply Srb; eauto | now apply Srot].
 Qed.
 
 (* ---- whole histories ---- *)
